@@ -8,6 +8,13 @@ configurations run the same statement in every instance (instances differ in
 their amounts); mixed configurations give the instances DIFFERENT statements
 on the same variable (a zero amount next to a non-zero one, += next to -=,
 different amount forms, two statements in one program).
+Mixed units: an INTEGER variable takes FIXED-POINT amounts (x register, x
+variable, float constants with and without a fraction, zero, negative,
+expressions mixing an x register with an integer register or a float) and an
+x variable takes integer amounts; the amount is converted to the variable's
+unit first (C02's rule: fixed -> integer drops the fraction, toward zero or
+toward minus infinity - both are accepted, per instance), the variable must
+end up changed by the sum of the converted amounts of all instances.
 Two or three interpreter instances (private registers and stack) run the
 assembled bytes on *shared* packet / map memory.  An explicit-state search
 with exact duplicate detection enumerates every interleaving at instruction
@@ -18,9 +25,14 @@ Atomicity of a single XADD instruction is an axiom of the interpreter (one
 step), as it is of the hardware.
 """
 import contextlib
+import copy
+import itertools
+import math
+from fractions import Fraction
 
 from mc import bpfvm, core
 from mc.dsl import Raw
+from harness.c01_intexpr import div_sites, patch_signed_div
 import ebpfcat.arraymap
 from ebpfcat.arraymap import ArrayMap, PerCPUArrayMap
 from ebpfcat.bpf import ProgType
@@ -36,7 +48,15 @@ RULE = ("uniform configurations = memory kind x format x (+=, -=) x amount "
         "instances running DIFFERENT statements on the variable: every zero "
         "statement x every statement, pairs of different non-zero "
         "statements, triples, and programs of two statements (zero + "
-        "non-zero); for each, explicit-state search "
+        "non-zero); mixed units = memory kind x integer format x (+=, -=) x "
+        "fixed-point amount form (x register, x local variable, float "
+        "constant with / without fraction, zero, negative, x register + "
+        "integer register, x register * float) and format x x the "
+        "corresponding forms, uniform and next to statements in the "
+        "variable's own unit, final value = initial + sum of the amounts "
+        "converted by C02's rule (fraction dropped toward zero or toward "
+        "minus infinity, either accepted for every instance); for each, "
+        "explicit-state search "
         "over (pc and registers and stack of every instance, shared bytes) "
         "with exact dedup enumerates all instruction-level interleavings of "
         "the compiled statement (mode 'stmt': private prologue executed "
@@ -59,6 +79,14 @@ FORMS = ["const", "neg", "big", "r", "sr", "w", "expr", "wexpr", "lvar",
          "xconst", "xreg", "xzero", "xrzero"]
 XFORMS = ("xconst", "xreg", "xzero", "xrzero")
 ZERO_FORMS = ("zero", "rzero", "wzero", "lzero", "xzero", "xrzero")
+# mixed units: a FIXED-POINT amount added to an INTEGER variable is converted
+# first (its fraction is dropped, C02's rule); these forms go with the integer
+# formats (and, where they add something, with x)
+UNIT_FORMS = ("fxreg", "fxvar", "fcfrac", "fcint", "fmix", "fmul",
+              "fxneg", "fcneg", "fxzero", "fczero")
+UNIT_FORMS_X = ("fxvar", "fcint", "fmix", "fmul")
+XLOCAL_FORMS = ("fxvar",)            # the amount variable a<k> has format x
+KF_SDIV = "C06-negative-fixed-amount-unsigned-division"
 # registers (a, b) and local variable of the k-th statement of a program
 # (r6/r7 are the map bases, r8/r6 the raw pointer/offset, r9 the packet)
 BANK = ((2, 3), (4, 5))
@@ -76,6 +104,15 @@ C_X = (0.5, 1.25, -2.5)
 R2 = (7, 0x100000005, M64 - 2)
 R3 = (1, 0x100, 0x7fffffff)
 LV = (9, 0x1234, 0x7ffffffe)
+# fixed-point amounts (raw, in 1/100000): 2.5, 12.34567, 0.99999 - integer
+# parts 2, 12 and 0 -; constants with and without a fraction; negative ones;
+# an integer register to mix with (the scaled sum stays below 2^31)
+FX = (250000, 1234567, 99999)
+FXN = (-250000, -100000, -1234567)
+FC_FRAC = (2.5, 1.25, 0.5)
+FC_INT = (3.0, 1.0, 250.0)
+FC_NEG = (-2.5, -1.0, -0.5)
+FM_R = (3, 0x100, 20000)
 
 
 def sx(v, bits):
@@ -133,6 +170,46 @@ class FakeMaps:
 
 
 # ------------------------------------------------------------ amounts
+def unit_amount(e, form, i, k):
+    """-> (DSL operand, the amount as an exact number, registers to plant,
+    raw value of the local variable a<k> or None) of a fixed-point amount"""
+    a, b = BANK[k]
+    xa, rb = e.x[a], e.r[b]
+    if form == "fxreg":
+        return xa, Fraction(FX[i], FIXED), {a: FX[i]}, None
+    if form == "fxneg":
+        return xa, Fraction(FXN[i], FIXED), {a: FXN[i] & M64}, None
+    if form == "fxzero":
+        return xa, Fraction(0), {a: 0}, None
+    if form == "fxvar":
+        return getattr(e, f"a{k}"), Fraction(FX[i], FIXED), {}, FX[i]
+    if form == "fcfrac":
+        return FC_FRAC[i], Fraction(repr(FC_FRAC[i])), {}, None
+    if form == "fcint":
+        return FC_INT[i], Fraction(repr(FC_INT[i])), {}, None
+    if form == "fcneg":
+        return FC_NEG[i], Fraction(repr(FC_NEG[i])), {}, None
+    if form == "fczero":
+        return 0.0, Fraction(0), {}, None
+    if form == "fmix":
+        return xa + rb, Fraction(FX[i], FIXED) + FM_R[i], \
+            {a: FX[i], b: FM_R[i]}, None
+    if form == "fmul":
+        return xa * 2.5, Fraction(FX[i], FIXED) * Fraction(5, 2), \
+            {a: FX[i]}, None
+    raise core.Internal(form)
+
+
+def acceptable_deltas(value, sign, scale):
+    """the raw changes of the variable that `var += value` (sign 1) or
+    `var -= value` (sign -1) may make: the exact amount in the variable's
+    unit; where that is not a whole number its fraction is dropped, toward
+    zero or toward minus infinity, before or after the negation"""
+    t = Fraction(value) * scale
+    return {math.trunc(sign * t), math.floor(sign * t),
+            sign * math.trunc(t), sign * math.floor(t)}
+
+
 def amount(e, form, fmt, i, k=0):
     """k-th statement of a program, amount index i
     -> (DSL operand, the integer the statement adds per unit, registers to
@@ -188,9 +265,22 @@ def amount(e, form, fmt, i, k=0):
 def forms_for(fmt):
     if fmt == "x":
         return FORMS
-    # a fixed-point amount added to an integer variable is divided first:
-    # that is C02's subject
     return [f for f in FORMS if f not in XFORMS]
+
+
+def unit_forms_for(fmt):
+    """amount forms whose unit differs from the variable's, or mixes both:
+    integer variables take every fixed-point form; x variables take integer
+    amounts already (const, r, lvar ... of FORMS) and here the forms FORMS
+    lacks (an x variable, a float without fraction, mixed expressions)"""
+    if fmt == "x":
+        return list(UNIT_FORMS_X)
+    forms = list(UNIT_FORMS)
+    if SIZE[fmt] == 4:
+        # fixed x fixed needs a 64-bit intermediate product: outside what
+        # C02 promises when the narrowest width involved is 32 bits
+        forms.remove("fmul")
+    return forms
 
 
 # ------------------------------------------------------------ programs
@@ -203,7 +293,9 @@ class Inst:
         self.stmts = progs[i]
         if not 0 < len(self.stmts) <= len(BANK):
             raise core.Internal("statements per program")
-        self.delta = None
+        self.delta = None          # the nominal change (fractions cut off)
+        self.accept = None         # every change the statement(s) may make
+        self.neg_converted = False
         inst = self
         attrs = {}
         subs = ()
@@ -234,6 +326,8 @@ class Inst:
         for k, (_, form, _) in enumerate(self.stmts):
             if form in ("lvar", "lzero"):
                 attrs[f"a{k}"] = LocalVar("I" if SIZE[fmt] == 4 else "Q")
+            elif form in XLOCAL_FORMS:
+                attrs[f"a{k}"] = LocalVar("x")
 
         def program(e):
             inst.emit(e)
@@ -271,13 +365,28 @@ class Inst:
         kind, fmt, _ = self.cfg
         todo = []
         self.delta = 0
+        self.accept = {0}
         for k, (opsym, form, ai) in enumerate(self.stmts):
-            operand, delta, regs, lval = amount(e, form, fmt, ai, k)
-            self.delta += delta if opsym == "+=" else -delta
+            sign = 1 if opsym == "+=" else -1
+            if form in UNIT_FORMS:
+                operand, value, regs, lval = unit_amount(e, form, ai, k)
+                scale = FIXED if fmt == "x" else 1
+                acc = acceptable_deltas(value, sign, scale)
+                delta = math.trunc(sign * value * scale)
+                lsize = 8
+                if fmt != "x" and sign * value < 0:
+                    self.neg_converted = True
+            else:
+                operand, delta, regs, lval = amount(e, form, fmt, ai, k)
+                delta *= sign
+                acc = {delta}
+                lsize = SIZE[fmt]
+            self.delta += delta
+            self.accept = {x + y for x in self.accept for y in acc}
             if lval is not None:           # a<k> = lval, by raw instructions
                 off = type(e).__dict__[f"a{k}"].relative_addr
                 self.ld64(BANK[k][0], lval)
-                self.raw(0x63 if SIZE[fmt] == 4 else 0x7b, 10, BANK[k][0],
+                self.raw(0x63 if lsize == 4 else 0x7b, 10, BANK[k][0],
                          off, 0)
             for no, val in sorted(regs.items()):
                 self.ld64(no, val)
@@ -439,20 +548,27 @@ class World:
 
     # ------------------------------------------------------ the oracle
     def expected(self):
+        """per instance: the set of final values of its variable that are
+        right (one value, unless a fixed-point amount with a fraction was
+        converted to an integer: then either way of dropping it)"""
         bits = 8 * self.size
         mask = (1 << bits) - 1
         n = len(self.insts)
         if self.kind in SHARED:
-            total = (self.init + sum(x.delta for x in self.insts)) & mask
-            return [total] * n
-        return [(self.init + x.delta) & mask for x in self.insts]
+            totals = {(self.init + sum(ch)) & mask for ch in
+                      itertools.product(*[sorted(x.accept)
+                                          for x in self.insts])}
+            return [totals] * n
+        return [{(self.init + d) & mask for d in x.accept}
+                for x in self.insts]
 
     def check_terminal(self):
         exp = self.expected()
         obs = [self.read_var(i) for i in range(len(self.insts))]
         problems = []
-        if obs != exp:
-            problems.append(("final value", [hex(v) for v in exp],
+        if not all(o in ex for o, ex in zip(obs, exp)):
+            problems.append(("final value",
+                             [sorted(hex(v) for v in ex) for ex in exp],
                              [hex(v) for v in obs]))
         # every other shared byte unchanged
         now = self.shared_snap()
@@ -565,7 +681,11 @@ def run_config(item, res):
         res.count("traces_validated_against_impl")
         if kind in SHARED and states > n + 1:
             res.nontrivial.add(core.digest([cj, init]))
-        res.outcomes.add(("terminals", min(terminals, 3), bool(found)))
+        kf = None
+        if found and signed_div_explains(insts, fake, mode, init):
+            kf = KF_SDIV
+        res.outcomes.add(("terminals", min(terminals, 3), bool(found),
+                          str(kf)))
         seen = set()
         for (what, exp, obs), sched in found:
             if what in seen:
@@ -573,8 +693,32 @@ def run_config(item, res):
             seen.add(what)
             res.violation(dict(cj, init=init, schedule=sched,
                                amounts=[x.delta for x in insts]), exp, obs,
-                          sig=core.digest([what, kind, fmt, shape]),
+                          kf=kf,
+                          sig=core.digest([what, kind, fmt, shape, str(kf)]),
                           note=f"{what} after schedule {sched}")
+
+
+def signed_div_explains(insts, fake, mode, init):
+    """defect model for KF_SDIV: the division by 100000 that converts a
+    fixed-point amount to an integer is the unsigned BPF_DIV, wrong as soon
+    as the (negated) amount is negative.  True when an instance converts a
+    negative amount AND the same programs, with exactly their DIV
+    instructions executed as signed divisions, pass the whole exploration
+    (every interleaving, every terminal state)"""
+    if not any(x.neg_converted for x in insts):
+        return False
+    patched = []
+    for x in insts:
+        y = copy.copy(x)
+        y.insns = patch_signed_div(x.insns,
+                                   [i for i in div_sites(x.insns)
+                                    if x.start <= i < x.end])
+        patched.append(y)
+    if all(y.insns == x.insns for x, y in zip(insts, patched)):
+        return False
+    world = World(patched, fake, mode, init)
+    world.prologue()
+    return not explore(world, core.Result())[3]
 
 
 def uniform(stmt, n):
@@ -675,6 +819,58 @@ def configs(ctx):
                         if form in ("const", "r", "expr", "xreg"):
                             items.append((c3, "whole", [iv[0], iv[2]],
                                           "uniform"))
+    # mixed units: fixed-point amounts on integer variables (and the other
+    # way round); quick takes three memory kinds per statement, rotating so
+    # that every kind meets every form, thorough takes every kind
+    n = 0
+    for fmt in FORMATS:
+        kinds = [k for k in KINDS if fmt in formats_for(k)]
+        iv = inits(fmt)
+        for opsym in ("+=", "-="):
+            for form in unit_forms_for(fmt):
+                st = (opsym, form)
+                n += 1
+                if ctx.quick:
+                    mine = uniq(kinds[(n * 3 + ctx.seed + j) % len(kinds)]
+                                for j in range(3))
+                else:
+                    mine = kinds
+                for ki, kind in enumerate(mine):
+                    c2 = (kind, fmt, uniform(st, 2))
+                    c3 = (kind, fmt, uniform(st, 3))
+                    pick = (ctx.seed + n + ki) % len(iv)
+                    if ctx.quick:
+                        items.append((c2, "stmt", uniq([iv[pick], iv[0]]),
+                                      "units"))
+                        items.append((c3, "stmt", [iv[(pick + 2) % len(iv)]],
+                                      "units"))
+                        if (n + ki) % 4 == 0:
+                            items.append((c2, "whole", [iv[pick]], "units"))
+                    else:
+                        items.append((c2, "stmt", iv, "units"))
+                        items.append((c3, "stmt", [iv[pick], iv[2]],
+                                      "units"))
+                        items.append((c2, "whole", [iv[0], iv[pick]],
+                                      "units"))
+                # next to a statement in the variable's own unit, and two
+                # different conversions next to each other
+                old = [s2 for s2 in statements(fmt)[2]]
+                partner = old[(n * 5 + ctx.seed) % len(old)]
+                others = [f for f in unit_forms_for(fmt) if f != form]
+                st2 = (("+=", "-=")[n % 2], others[(n + ctx.seed)
+                                                   % len(others)])
+                for j, pr in enumerate((
+                        ((st + (0,),), (partner + (1,),)),
+                        ((st2 + (1,),), (st + (2,),)),
+                        ((st + (0,),), (partner + (1,),), (st2 + (2,),)),
+                        ((st + (0,), partner + (1,)), (st2 + (2,),)))):
+                    for kind in (mine[j % len(mine)],) if ctx.quick \
+                            else mine[j % 2::2]:
+                        pick = (ctx.seed + n + j) % len(iv)
+                        items.append(((kind, fmt, pr), "stmt",
+                                      uniq([iv[pick], iv[(pick + 2)
+                                                         % len(iv)]]),
+                                      "units mixed"))
     # mixed statements: quick rotates the memory kind over the programs,
     # thorough takes every kind (every other one for three instances and
     # for two statements per program)
@@ -714,7 +910,9 @@ def run(ctx):
     res.cov["alphabet"] = dict(kinds=KINDS, formats=FORMATS, forms=FORMS,
                                zero_forms=list(ZERO_FORMS),
                                instances=[2, 3], modes=["stmt", "whole"],
-                               families=["uniform", "zero+any",
+                               unit_forms=list(UNIT_FORMS),
+                               families=["uniform", "units", "units mixed",
+                                         "zero+any",
                                          "two different", "three, one zero",
                                          "three, two zero", "two statements"])
     res.sample(dict(kind="array", fmt="q", n=2, mode="stmt", family="zero+any",
@@ -731,9 +929,20 @@ def run(ctx):
         "per-CPU variables: instances on different CPUs own private copies "
         "(each must end at initial + own amounts); instances on the same CPU "
         "share one copy",
-        "a fixed-point amount added to an integer variable is converted by a "
-        "division first (C02) and is not enumerated (the fixed-point forms, "
-        "also 0.0, go with format x only)",
+        "a fixed-point amount added to or subtracted from an integer "
+        "variable is converted to an integer first; per C02 the conversion "
+        "drops the fraction, toward zero or toward minus infinity: every "
+        "instance may have dropped it either way, before or after the "
+        "negation of `-=`, and every resulting sum is accepted (one value "
+        "when all amounts are whole numbers); amounts are chosen so that "
+        "the scaled operands fit 32 bits (the narrowest width involved for "
+        "I/i variables); fixed x fixed amounts (64-bit intermediate product) "
+        "go with 8-byte variables only; the older fixed-point forms xconst/"
+        "xreg/xzero/xrzero (64-bit register patterns) stay with format x",
+        "a wrong final value is attributed to " + KF_SDIV + " only when an "
+        "instance converts a negative (or negated positive) fixed-point "
+        "amount AND the whole exploration passes once exactly the DIV "
+        "instructions of the statements execute as signed divisions",
         "an amount of zero is an amount: `v += 0`, `v -= 0.0`, `v += reg` "
         "with reg == 0 are in-place additions like any other and must not "
         "disturb a concurrent update; the sum of all amounts includes them",
@@ -772,8 +981,11 @@ def replay(ctx, rep):
         print(f"instance {i} pc {pc}: variable now "
               f"{[hex(world.read_var(k)) for k in range(len(insts))]}")
     if all(world.finished(i) for i in range(len(insts))):
-        for what, exp, obs in world.check_terminal():
-            res.violation(c, exp, obs, note=what)
+        problems = world.check_terminal()
+        kf = KF_SDIV if problems and signed_div_explains(
+            insts, fake, c["mode"], c["init"]) else None
+        for what, exp, obs in problems:
+            res.violation(c, exp, obs, kf=kf, note=what)
     else:
         raise core.Internal("schedule does not end in a terminal state")
     return res.violations
